@@ -175,7 +175,7 @@ def cubeNames (names : List String) : M Int := cube ((dedup names).map fun k => 
 def copyMethod (src : Tbl) (u : Int) : M Int := copyBdd src u
 
 /-- `_assert_valid_ordering(levels)` for a `dict` given as a list of items -/
-def validOrdering (levels : List (String × Int)) : Bool :=
+def apiValidOrdering (levels : List (String × Int)) : Bool :=
   let n := levels.length
   let nums := levels.map (·.2)
   (List.range n).all (fun i => nums.contains (i : Int)) && nums.all (fun k => 0 ≤ k && k < n)
@@ -190,8 +190,8 @@ def namesByLevel (l : List (String × Int)) : List String :=
 
 /-- `_assert_isomorphic_orders(old, new, support)` -/
 def assertIsomorphicOrders (old new : List (String × Int)) (support : List String) : Except Err Unit :=
-  if !validOrdering old then .error .assertion else
-  if !validOrdering new then .error .assertion else
+  if !apiValidOrdering old then .error .assertion else
+  if !apiValidOrdering new then .error .assertion else
   let s := old.filter fun kv => support.contains kv.1
   let t := new.filter fun kv => support.contains kv.1
   if namesByLevel s == namesByLevel t then .ok () else .error .assertion
